@@ -317,7 +317,8 @@ def main(tier):
         both = exp_ok & ok
         rel = np.where(both, relerr(v, np.where(ref == 0, 1, ref)), 0.0)
         st['compared'] += int(both.sum())
-        for k in np.nonzero(both & (rel > tol_of(var)))[0]:
+        hdev = np.nonzero(both & (rel > tol_of(var)))[0]
+        for k in hdev[np.argsort(-rel[hdev], kind='stable')]:
             key = 'c08:%s:wrong-value' % name
             if ti == 4 and var in ('nonrad', 'full'):
                 # diagnosis: does the value equal the recursion without the K-M1[N..Q] terms?
@@ -484,6 +485,7 @@ def compare(ck, st, md, kind, fname, var, rv, ok, v, ref, alt, gZ, gE, axis, she
                      '%s %s (%r) where the cascade model has no vacancy production / yield / rate' % (fname, what, float(v[k, j])),
                      dict(call=call(k, j), returned=float(v[k, j]), config='kissel'))
     bad = np.argwhere(exp_ok & ~ok)
+    bad = bad[np.argsort(-ref[bad[:, 0], bad[:, 1]], kind='stable')] if len(bad) else bad      # most significant witness first
     nkey = {}
     for k, j in bad:
         key = 'c08:%s:error-where-value-expected:%s:%s' % (kind, var, shname(k, j))
@@ -509,6 +511,7 @@ def compare(ck, st, md, kind, fname, var, rv, ok, v, ref, alt, gZ, gE, axis, she
     pf['compared'] += int(both.sum())
     st['compared'] += int(both.sum())
     devs = np.argwhere(both & (rel > tol_of(var)))
+    devs = devs[np.argsort(-rel[devs[:, 0], devs[:, 1]], kind='stable')] if len(devs) else devs   # largest deviation first
     isdev = np.zeros_like(both)
     seen = {}
     for k, j in devs:
